@@ -361,6 +361,13 @@ impl Router {
         }
 
         let connection_id = self.connections.insert(connection);
+        // the subscriptions of a resumed session belong to this connection id from now on
+        for filter in self.connections[connection_id].subscriptions.iter() {
+            self.subscription_map
+                .entry(filter.clone())
+                .or_default()
+                .insert(connection_id);
+        }
         assert_eq!(self.ibufs.insert(incoming), connection_id);
         assert_eq!(self.obufs.insert(outgoing), connection_id);
 
